@@ -238,13 +238,58 @@ def add_atoms(m, est, tag):
     return abstract_args(m, f, 2, prefix=tag + "_")
 
 
-def r_law_generic(ctx, db, est, law, builder, key=None, seed=1, points=4, max_paths=200, fn=None):
+_WEIGHT_LEAVES = {}
+
+
+def weight_leaves(db, est):
+    """state leaves that accumulate weights only: after new().add(x, w) they depend on w alone"""
+    key = (id(db), est.path)
+    if key not in _WEIGHT_LEAVES:
+        out = set()
+        try:
+            m = Machine(db, [], Config(release=True))
+            alg = Alg(m, est)
+            xs = add_atoms(m, est, "x")
+            if len(xs) == 2:
+                for v in xs:
+                    m.order.set_nan(v, False)
+                m.order.assume("Gt", xs[1], F.ZERO, True)
+                s = alg.new("s")
+                alg.add(s, *xs)
+                wn = {xs[1][1]}
+                for k, v in leaves(s.v):
+                    if is_float(v) and not F.is_lit(v) and F.atoms(v) and F.atoms(v) <= wn:
+                        out.add(k)
+        except (PathEnd, Unsupported):
+            pass
+        _WEIGHT_LEAVES[key] = out
+    return _WEIGHT_LEAVES[key]
+
+
+def weights_assumer(db, est, strict):
+    """domain facts for abstract states of a weighted estimator: weight accumulators are not NaN
+    and >= 0 (> 0 when `strict`: law states have a positive total weight; the zero-weight 'empty'
+    states are covered by R-IDENT / R-ZEROW)"""
+    wl = weight_leaves(db, est)
+
+    def f(m, cell):
+        for k, v in leaves(cell.v):
+            if is_float(v) and not F.is_lit(v):
+                m.order.set_nan(v, False)
+                if k in wl:
+                    m.order.assume("Gt" if strict else "Ge", v, F.ZERO, True)
+    return f
+
+
+def r_law_generic(ctx, db, est, law, builder, key=None, seed=1, points=4, max_paths=200, fn=None, assume=None):
     """builder(alg) -> (lhs_cell_or_leafmap, rhs_cell_or_leafmap)"""
     fn = fn or (est.merge if law in ("L2", "L3", "L4") else est.add)
     fsite = fn_site(db, fn)
 
     def setup(m):
         alg = Alg(m, est)
+        if assume is not None:
+            alg.state_assume = assume
 
         def thunk():
             l, r = builder(alg)
@@ -272,7 +317,27 @@ def r_law_generic(ctx, db, est, law, builder, key=None, seed=1, points=4, max_pa
         ctx.ob("R-LAW", key or law, fn, fsite, False, "%s: no returning path" % law, inc=True)
 
 
-def laws_add_merge(ctx, db, est, which=("L1", "L2", "L3", "L4"), seed=1):
+def weighted_args(m, xs):
+    """domain of the weighted estimators: finite samples, weights >= 0"""
+    for v in xs:
+        if is_float(v) and not F.is_lit(v):
+            m.order.set_nan(v, False)
+    if len(xs) > 1:
+        m.order.assume("Ge", xs[1], F.ZERO, True)
+
+
+def laws_add_merge(ctx, db, est, which=("L1", "L2", "L3", "L4"), seed=1, assume=None, arg_assume=None):
+    _plain = add_atoms
+
+    def add_atoms_(m, est_, tag):
+        xs = _plain(m, est_, tag)
+        if arg_assume is not None:
+            arg_assume(m, xs)
+        return xs
+    return _laws_add_merge(ctx, db, est, which, seed, assume, add_atoms_)
+
+
+def _laws_add_merge(ctx, db, est, which, seed, assume, add_atoms):
     if "L1" in which and est.add:
         for label, mk_s in (("generic", lambda a: a.sym("S")), ("empty", lambda a: a.new("S"))):
             def b1(alg, mk_s=mk_s):
@@ -285,7 +350,7 @@ def laws_add_merge(ctx, db, est, which=("L1", "L2", "L3", "L4"), seed=1):
                 alg.add(s2, *ys)
                 alg.add(s2, *xs)
                 return s1, s2
-            r_law_generic(ctx, db, est, "L1", b1, key="L1:add-commutes:" + label, seed=seed)
+            r_law_generic(ctx, db, est, "L1", b1, key="L1:add-commutes:" + label, seed=seed, assume=assume)
     if "L2" in which and est.add and est.merge:
         def b2(alg):
             xs = add_atoms(alg.m, est, "x")
@@ -296,7 +361,7 @@ def laws_add_merge(ctx, db, est, which=("L1", "L2", "L3", "L4"), seed=1):
             alg.merge(s1, single)
             alg.add(s2, *xs)
             return s1, s2
-        r_law_generic(ctx, db, est, "L2", b2, key="L2:merge-singleton=add", seed=seed)
+        r_law_generic(ctx, db, est, "L2", b2, key="L2:merge-singleton=add", seed=seed, assume=assume)
     if "L3" in which and est.merge:
         def b3(alg):
             a = alg.sym("A")
@@ -305,7 +370,7 @@ def laws_add_merge(ctx, db, est, which=("L1", "L2", "L3", "L4"), seed=1):
             alg.merge(a, b)
             alg.merge(b2_, a2)
             return a, b2_
-        r_law_generic(ctx, db, est, "L3", b3, key="L3:merge-commutes", seed=seed)
+        r_law_generic(ctx, db, est, "L3", b3, key="L3:merge-commutes", seed=seed, assume=assume)
     if "L4" in which and est.merge:
         def b4(alg):
             a = alg.sym("A")
@@ -317,7 +382,7 @@ def laws_add_merge(ctx, db, est, which=("L1", "L2", "L3", "L4"), seed=1):
             alg.merge(b2_, c2)
             alg.merge(a2, b2_)
             return a, a2
-        r_law_generic(ctx, db, est, "L4", b4, key="L4:merge-associates", seed=seed)
+        r_law_generic(ctx, db, est, "L4", b4, key="L4:merge-associates", seed=seed, assume=assume)
 
 
 # ---------------------------------------------------------------------------------------------
@@ -962,3 +1027,41 @@ def r_no_interior_mutability(ctx, db):
            "crate-level lint level for unsafe_code is %s" % lint)
     st = [s["path"] for s in db.statics if s.get("crate") == "average"]
     ctx.ob("R-FRAME", "no-statics", "-", "-", not st, "statics: %s" % st if st else "the crate defines no static item")
+
+
+# ---------------------------------------------------------------------------------------------
+# R-BINOM: the binomial iterator of define_moments! yields Pascal's triangle without overflow
+
+
+def r_binom(ctx, db, moments_path, N):
+    """IterBinomial::new(p) then next() p+1 times must give C(p, 0..p), then None, for p <= N;
+    every intermediate product fits in u64 (the overflow assertions are part of the MIR)"""
+    import math
+    mod = moments_path.rsplit("::", 1)[0] if "::" in moments_path else ""
+    base = (mod + "::" if mod else "") + "IterBinomial"
+    newp = base + "::new"
+    nextp = "<%s as core::iter::traits::iterator::Iterator>::next" % base
+    if newp not in db.fns or nextp not in db.fns:
+        ctx.ob("R-BINOM", "present", moments_path, "-", False, "binomial iterator of %s not found (%s)" % (moments_path, newp), inc=True)
+        return 0
+    n = 0
+    for p in range(0, N + 1):
+        m = Machine(db, [], Config(release=False))
+        try:
+            it = Cell(call(m, newp, [p]), root="it")
+            got = []
+            for _ in range(p + 2):
+                o = call(m, nextp, [VRef(it, (), True)])
+                got.append(simp(o.fields[0]) if o.variant == 1 else None)
+            want = [math.comb(p, k) for k in range(p + 1)] + [None]
+            ok = got == want
+            detail = "binomial coefficients of order %d are %s" % (p, got[:-1]) if ok else "order %d: iterator yields %s, Pascal's triangle has %s" % (p, got, want)
+        except PathEnd as e:
+            ok = False
+            detail = "order %d: %s (%s at %s)" % (p, e.status, e.info.get("kind"), site(e.info.get("span")))
+        except Unsupported as e:
+            ctx.ob("R-BINOM", "row:%d" % p, nextp, fn_site(db, nextp), False, str(e), inc=True)
+            continue
+        n += 1
+        ctx.ob("R-BINOM", "row:%d" % p, nextp, fn_site(db, nextp), ok, detail, sample={"p": p})
+    return n
